@@ -239,6 +239,12 @@ class _AttrCalls(ast.NodeTransformer):
 
     def visit_Call(self, node):
         self.generic_visit(node)
+        # N32: dict(a=x, b=y) -> {"a": x, "b": y}   (keyword form of a display; same key order, same evaluation order)
+        if isinstance(node.func, ast.Name) and node.func.id == "dict" and not node.args and node.keywords and all(k.arg is not None for k in node.keywords):
+            d = ast.Dict(keys=[ast.Constant(value=k.arg) for k in node.keywords], values=[k.value for k in node.keywords])
+            ast.copy_location(d, node)
+            ast.fix_missing_locations(d)
+            return d
         if isinstance(node.func, ast.Name) and node.func.id == "getattr" and len(node.args) == 2 and not node.keywords \
                 and isinstance(node.args[1], ast.Constant) and isinstance(node.args[1].value, str) and node.args[1].value.isidentifier():
             return ast.copy_location(ast.Attribute(value=node.args[0], attr=node.args[1].value, ctx=ast.Load()), node)
@@ -1128,7 +1134,7 @@ def _propagate_bools(fdef):
             st = stmts[i]
             for owner, f in _child_lists(st):
                 try_list(getattr(owner, f))
-            if isinstance(st, ast.Assign) and len(st.targets) == 1 and isinstance(st.targets[0], ast.Name) and (_is_boolish(st.value) or isinstance(st.value, (ast.Attribute, ast.Subscript))):
+            if isinstance(st, ast.Assign) and len(st.targets) == 1 and isinstance(st.targets[0], ast.Name) and (_is_boolish(st.value) or isinstance(st.value, (ast.Attribute, ast.Subscript, ast.BoolOp))):
                 b = st.targets[0].id
                 uses = loads.get(b, [])
                 rest = stmts[i + 1:]
